@@ -36,6 +36,10 @@ def run(tier, seed):
                         rc_params=core.rc_params(core.splitmix(seed, 100 + i), (6 if slow else 12) if q else 200), label="rc optim %s" % be))
     jobs.append(Job("c02", "debug", "spqlios-fma", {"mode": "rc", "keys": 1, "keybase": kb + 60, "maxops": 60},
                     rc_params=core.rc_params(core.splitmix(seed, 200), 10 if q else 300), label="rc debug fma"))
+    # the scalar (non-AVX2) code paths of the debug build get their own noise statistics: >= 300 outputs under one key and parameter set
+    for r in range(3 if q else 8):
+        jobs.append(Job("c02", "debug", "spqlios-fma", {"mode": "rc", "keys": 1, "keybase": kb + 60, "maxops": 60, "lambda": 128 if r % 4 != 3 else 80},
+                        rc_params=core.rc_params(core.splitmix(seed, 210 + r), 12 if q else 60), label="rc debug fma stats %d" % r))
     if not q:
         for i, be in enumerate(build.BACKENDS[1:]):
             jobs.append(Job("c02", "debug", be, {"mode": "rc", "keys": 1, "keybase": kb + 70 + i, "maxops": 40},
